@@ -3,7 +3,7 @@
 import os, sys, json, subprocess, shutil
 from concurrent.futures import ProcessPoolExecutor
 sys.path.insert(0, os.path.dirname(os.path.dirname(os.path.abspath(__file__))))
-PROPS = ["C%02d" % i for i in range(1, 19)]
+PROPS = [p for p in ["C%02d" % i for i in range(1, 19)] if not os.environ.get("XS_PROPS") or p in os.environ["XS_PROPS"].split(",")]
 BASE = "/tmp/sd"
 
 def prep(sid):
@@ -35,8 +35,8 @@ if __name__ == "__main__":
     ids = [d for d in sorted(os.listdir("/verif/seeded")) if pat in d]
     ids = [s for s in ids if prep(s)]
     with ProcessPoolExecutor(16) as ex:
-        BASE = dict(ex.map(base_of, PROPS))
-    tasks = [(s, p, BASE[p]) for s in ids for p in PROPS]
+        BASEK = dict(ex.map(base_of, PROPS))
+    tasks = [(s, p, BASEK[p]) for s in ids for p in PROPS]
     res = {}
     with ProcessPoolExecutor(16) as ex:
         for sid, prop, rules, errs in ex.map(work, tasks, chunksize=2):
